@@ -24,6 +24,7 @@ type Out struct {
 	Ovl  []OvlCase  `json:"ovl"`
 	Hist []HistCase `json:"hist"`
 	Cpr  []CprCase  `json:"cpr"`
+	Seq  []SeqCase  `json:"seq"`
 }
 
 func ints(b []byte) []int {
@@ -51,6 +52,7 @@ func main() {
 	nOvl := flag.Int("novl", 300, "number of overlap samples")
 	nHist := flag.Int("nhist", 60, "number of multi-queue flush histories")
 	nCpr := flag.Int("ncpr", 80, "number of command-processor relay histories")
+	nSeq := flag.Int("nseq", 60, "number of batch / remap sequences")
 	out := flag.String("out", "", "output JSON file")
 	rep := flag.String("replay", "", "JSON file with cases to replay ({dma:[],drv:[],ovl:[]})")
 	flag.Parse()
@@ -81,12 +83,16 @@ func main() {
 		for _, c := range in.Cpr {
 			res.Cpr = append(res.Cpr, replayCpr(c))
 		}
+		for _, c := range in.Seq {
+			res.Seq = append(res.Seq, replaySeq(c))
+		}
 	} else {
 		res.Dma = genDmaCases(*seed, *nDma)
 		res.Drv = genDrvCases(*seed+7777, *nDrv)
 		res.Ovl = genOvlCases(*seed+999, *nOvl)
 		res.Hist = genHistCases(*seed+31337, *nHist)
 		res.Cpr = genCprCases(*seed+4242, *nCpr)
+		res.Seq = genSeqCases(*seed+9090, *nSeq)
 	}
 	if res.Dma == nil {
 		res.Dma = []DmaCase{}
@@ -102,6 +108,9 @@ func main() {
 	}
 	if res.Cpr == nil {
 		res.Cpr = []CprCase{}
+	}
+	if res.Seq == nil {
+		res.Seq = []SeqCase{}
 	}
 	data, _ := json.Marshal(res)
 	if *out == "" {
